@@ -1196,7 +1196,35 @@ func concurrentReplay(c *Ctx, recs []concRec) {
 	if len(recs) < 2 {
 		return
 	}
-	const workers, rounds = 8, 3
+	concurrentReplayPhase(c, recs, 8, 3, "as presented")
+	// second phase: only ACCEPTED messages, all in the compressed presentation, from more goroutines than processors (a
+	// buffer shared between the inflate step and a later reader of the inflated bytes is only overwritten when two
+	// compressed messages are in flight at once).  A raw message is compressed here; its outcome alone is the recorded one
+	// (C12: the compressed presentation is transparent).
+	var comp []concRec
+	for _, r := range recs {
+		if !strings.HasPrefix(r.obs, "VC \"Ok\"") && !strings.HasPrefix(r.obs, "(VC \"Ok\"") {
+			continue
+		}
+		raw := mustDecodeWire(r.wire)
+		if len(raw) == 0 {
+			continue
+		}
+		if raw[0] == '<' || raw[0] == ' ' || raw[0] == '\n' || raw[0] == 0xEF {
+			r.wire = b64(deflateBytes(raw, 6))
+			r.labels = append(append([]string{}, r.labels...), "deflated-for-replay")
+		}
+		comp = append(comp, r)
+		if len(comp) >= 24 {
+			break
+		}
+	}
+	if len(comp) >= 2 {
+		concurrentReplayPhase(c, comp, 32, 10, "accepted messages, all DEFLATE-compressed")
+	}
+}
+
+func concurrentReplayPhase(c *Ctx, recs []concRec, workers, rounds int, what string) {
 	type diff struct {
 		i   int
 		got string
@@ -1245,7 +1273,7 @@ func concurrentReplay(c *Ctx, recs []concRec) {
 		}(w)
 	}
 	wg.Wait()
-	c.Count(fmt.Sprintf("resp:concurrent-replays=%d", workers*rounds*len(recs)))
+	c.Count(fmt.Sprintf("resp:concurrent-replays(%s)=%d", what, workers*rounds*len(recs)))
 	seen := map[int]bool{}
 	for _, d := range diffs {
 		if seen[d.i] || len(seen) >= 3 {
@@ -1254,7 +1282,7 @@ func concurrentReplay(c *Ctx, recs []concRec) {
 		seen[d.i] = true
 		rec := recs[d.i]
 		c.Violate("spec", "concurrency:result-differs", "the same encoded Response under the same configuration gives another result when other validations run at the same time (state shared between calls)",
-			map[string]interface{}{"op": "ValidateEncodedResponse+RetrieveAssertionInfo, 8 goroutines x 3 rounds over the recorded cases, fresh SP per call",
+			map[string]interface{}{"op": fmt.Sprintf("ValidateEncodedResponse+RetrieveAssertionInfo, %d goroutines x %d rounds over the recorded cases (%s), fresh SP per call", workers, rounds, what),
 				"labels": rec.labels, "encoded_response": rec.wire, "clock": rec.now.Format(time.RFC3339Nano), "store": rec.store,
 				"alone": rec.obs, "concurrent": d.got, "all_inputs": func() []string {
 					var ws []string
